@@ -73,12 +73,20 @@ def rule_criteria(ctx, rid):
     }
     names = {0: 'phase strictly increasing', 1: 'start within [0, phase_edge]', 2: 'end within [2pi - phase_edge, 2pi]'}
     # slot values on the evaluated paths: a check may also be written as a direct assignment of a boolean expression
+    def unbool(t):
+        while t[0] == 'call' and t[1] in ('builtins.bool', 'numpy.bool_') and len(t[2]) == 1:
+            t = t[2][0]
+        return t
+
     def slots(e):
         t = e.value
         vals = {}
+        # the check vector written as one literal: np.array([c0, c1, c2, c3], dtype=bool)
+        if t[0] == 'call' and t[1] in ('numpy.array', 'numpy.asarray') and t[2] and t[2][0][0] in ('list', 'tuple'):
+            return {i: unbool(x) for i, x in enumerate(t[2][0][1])}
         while t[0] == 'setitem':
             if is_c(t[2]) and t[2][1] not in vals:
-                vals[t[2][1]] = t[3]
+                vals[t[2][1]] = unbool(t[3])
             t = t[1]
         return vals
     direct = {}
@@ -112,14 +120,7 @@ def rule_criteria(ctx, rid):
     # check 3: true when no waveform is given
     ok3 = False
     for e in rets:
-        v = e.value
-        # decode setitem chain
-        t = v
-        vals = {}
-        while t[0] == 'setitem':
-            if is_c(t[2]) and t[2][1] not in vals:
-                vals[t[2][1]] = t[3]
-            t = t[1]
+        vals = slots(e)
         if vals.get(3) == C(True):
             ok3 = True
         else:
